@@ -1,4 +1,5 @@
 #![recursion_limit = "512"]
+mod astgen;
 mod controller;
 mod corpus;
 mod exec;
@@ -34,6 +35,7 @@ fn main() {
     }
     match args[1].as_str() {
         "refsrv" => refsrv::serve(args.get(2).map(|s| s.as_str()).unwrap_or_else(|| usage())),
+        "forker" => refsrv::forker_main(),
         "worker" => worker::worker_main(args.get(2).map(|s| s.as_str()).unwrap_or_else(|| usage())),
         "local" => {
             // debugging aid: run seeds in this process against a reference server
@@ -46,12 +48,13 @@ fn main() {
             let refc = std::sync::Arc::new(std::sync::Mutex::new(
                 refsrv::RefClient::connect(sock).expect("connect"),
             ));
+            let pool = run::CallerPool::new(model::MAX_THREADS);
             let t0 = std::time::Instant::now();
             let mut viol = 0;
             let mut compared = 0; let mut misses = 0; let mut reqs = 0;
             for s in seed0..seed0 + n {
-                let job = worker::Job { seed: s, flavor: flavor.clone(), log, want_spec: log, spec: None };
-                let o = worker::exec_job(&job, &refc);
+                let job = worker::Job { seed: s, flavor: flavor.clone(), log, want_spec: log, spec: None, want_trace: false };
+                let o = worker::exec_job(&job, &refc, Some(&pool));
                 compared += o.rec.compared; misses += o.rec.ref_misses; reqs += o.rec.ref_requests;
                 if log {
                     if let Some(sp) = &o.rec.spec {
@@ -92,6 +95,21 @@ fn main() {
         "probe" => {
             let p = probe::send_sync_probe();
             println!("Regex: Send={} Sync={} (probe selftest {})", p.0, p.1, probe::selftest());
+        }
+        "astgen" => {
+            // show what the pattern generator produces
+            let seed: u64 = args.get(2).and_then(|s| s.parse().ok()).unwrap_or(1);
+            let n: u64 = args.get(3).and_then(|s| s.parse().ok()).unwrap_or(10);
+            quiet_panics();
+            let mut ok = 0;
+            for i in 0..n {
+                let mut r = rng::Rng::stream(seed, i);
+                let f = astgen::family(&mut r);
+                let c = exec::compile(&f.key);
+                if c.is_ok() { ok += 1; }
+                println!("{:?} {:?} -> {} inputs {:?}", f.key.p, f.key.f, if c.is_ok() { "ok" } else { "ERR" }, f.inputs);
+            }
+            println!("{} of {} compile", ok, n);
         }
         "mark-corpus" => {
             // one-off provenance tool: add "err": true to families whose key does not compile
